@@ -692,7 +692,11 @@ RULE = ("fixed handshake/finding/removal histories first, then seeded random mul
         "modes (muted, P without R, D), some messages, then p2p/group subscriptions deleted ({leave unsub}, {del sub}, ban by "
         "{set sub user mode} without J) while the topic stays loaded, followed by {note kp|read|recv} with sequence numbers around "
         "lastID, publishes, hard/soft message deletions, mute/un-mute, re-invitations, re-subscription of the removed user, "
-        "attach/detach/disconnect of the remaining members; after each op: "
+        "attach/detach/disconnect of the remaining members; profile stuck (slow consumers): per user an observer session on 'me' "
+        "and two foreground worker sessions on p2p/group topics; up to two sessions clogged at a time (drain loop stopped, "
+        "Session.send filled to capacity: every queueOut fails, the next fan-out of a topic detaches the session), then "
+        "{note read|recv|kp}, {pub}, {del msg}, permission changes, evict/unsub, detach/re-attach/disconnect/unclog by the "
+        "user's other session and by other users; after each op: "
         "sound quiescence, then pres frames per session, perSubs tables, perUser.online, attached sessions, stored rows; "
         "non-trivial = at least one {pres} frame delivered; distinct by (ops, frames)")
 
@@ -840,6 +844,10 @@ def run(ctx):
             "Session.dispatchRaw; quiescence by goroutine-state snapshot; idle unload = the topic's own killTimer reset to 1ns (real "
             "handleTopicTimeout); idle timers of other topics pushed to 1h at quiescence; Session.background set directly (nothing in "
             "this code base sets it for ordinary sessions); unload1/unload2 replay one legal schedule of handleTopicTimeout by hand",
+            "clog/unclog (zz_verif_c10_test.go pClogC10x): the session's drain loop is stopped through its own stop channel and "
+            "Session.send is filled to capacity with dummy frames; while clogged a goroutine still serves Session.detach (one legal "
+            "schedule of a slow writer); a clogged session sends no requests; the comparison of a history stops at the first "
+            "permission change executed while a session is clogged ({pres acs} emission not modelled), the laws do not",
             "harness/overlay/server/db/memverif: in-memory adapter (store contract modelled, not verified)",
             "tools/props/c10.py monitors: python restatement of C10 on the implementation's dumps",
             "model scope (coq/Sys/Pres.v): users with default access JRWPAS, groups with defacs JRWPS, {pres} what in {on, off, ?unkn, ?none, "
